@@ -10,9 +10,11 @@
      bytes_of t w                     the bytes of request t on the wire, in order
      d_broken / c_broken              ghost: the connection broke the io.Writer contract (Write returned n < len(p) and a nil error)
      d_torn / c_torn                  ghost: some Write call returned after accepting a proper, non-empty part of its buffer
-     d_late / c_late                  ghost: a Write call began after that (this is what known finding F-C07-1 is about)
-   Hypotheses that mention these flags are hypotheses about the environment or the excluded known finding; each is
-   shown satisfiable by an Example at the end.  The full statements they protect are refuted in C07/Refuted.v. *)
+   The only hypothesis of this kind left is [broken = false], a hypothesis about the environment (the connection
+   honours io.Writer); it is shown satisfiable by the Examples at the end and necessary for the coalescer's wire shape in
+   C07/Refuted.v.  The former known findings F-C07-1 (a frame written behind a torn one) and F-C07-2 (a frame written
+   although the context had ended) are fixed in /repo; the model follows the repaired code and the statements that carried
+   their excluding hypotheses are unconditional now. *)
 From GocqlV Require Import Lib.Base C07.Model C07.Spec C07.Proofs1 C07.Proofs2 C07.Proofs3 C07.Proofs4 C07.Proofs5 C07.Proofs6 C07.Proofs7.
 Local Open Scope nat_scope.
 
@@ -80,18 +82,33 @@ Theorem C07_direct_cancel_leaves_nothing : forall has_to ls s t l,
 Proof. exact direct_select_exit_lemma. Qed.
 Print Assumptions C07_direct_cancel_leaves_nothing.
 
-(* Wire shape.  Unless a Write call began after a torn one (d_late: known finding F-C07-1), the wire is whole
-   frames, each once, followed by at most one incomplete frame; and the incomplete frame is there only because its
-   Write is still in progress or because it failed, in which case its caller was told exactly how much of it was
-   written, with an error (if the connection honoured io.Writer). *)
+(* If the context of a request ends while the request is still at the select (waiting for the semaphore), no byte of
+   its frame is ever written, and whatever it is told is (0, an error). *)
+Theorem C07_direct_ctx_done_leaves_nothing : forall has_to ls1 ls2 s1 s t e,
+  drun has_to d_init ls1 = Some s1 -> pc_of (d_thr s1) t = Some PSelect ->
+  drun has_to s1 (DCtxDone t e :: ls2) = Some s ->
+  bytes_of t (d_wire s) = [] /\ forall r, result_of (d_thr s) t = Some r -> fst r = 0 /\ snd r <> None.
+Proof. exact direct_ctx_done_lemma. Qed.
+Print Assumptions C07_direct_ctx_done_leaves_nothing.
+
+(* Wire shape, in every reachable state and whatever the connection does: the wire is whole frames, each once,
+   followed by at most one incomplete frame; and the incomplete frame is there only because its Write is still in
+   progress or because it failed, in which case its caller was told exactly how much of it was written, with an error
+   (if the connection honoured io.Writer). *)
 Theorem C07_direct_wire_shape : forall has_to ls s,
-  drun has_to d_init ls = Some s -> d_late s = false ->
+  drun has_to d_init ls = Some s ->
   exists ts tl, d_wire s = whole (frame_of (d_thr s)) ts ++ tl /\ NoDup ts /\
     (tl = [] \/ exists t c, ~ In t ts /\ 0 < c < length (frame_of (d_thr s) t) /\ tl = tag t (firstn c (frame_of (d_thr s) t)) /\
        (pc_of (d_thr s) t = Some (PWriting c) \/
         (d_torn s = true /\ exists e, result_of (d_thr s) t = Some (c, e) /\ (d_broken s = false -> e <> None)))).
 Proof. exact direct_wire_shape_lemma. Qed.
 Print Assumptions C07_direct_wire_shape.
+
+(* After a partial write nothing more is written on the connection, by anybody, ever. *)
+Theorem C07_direct_nothing_after_partial : forall has_to ls1 ls2 s1 s2,
+  drun has_to d_init ls1 = Some s1 -> d_torn s1 = true -> drun has_to s1 ls2 = Some s2 -> d_wire s2 = d_wire s1.
+Proof. exact direct_nothing_after_partial_lemma. Qed.
+Print Assumptions C07_direct_nothing_after_partial.
 
 (* Once c.conn.Close() has been called the wire never changes again. *)
 Theorem C07_direct_nothing_after_close : forall has_to ls s s',
@@ -142,14 +159,29 @@ Theorem C07_coal_result_final : forall has_to ls1 ls2 s1 s2 t r,
 Proof. exact coal_result_final_lemma. Qed.
 Print Assumptions C07_coal_result_final.
 
+(* The context of a request ends while the request is still at the select (blocked on the send to the flusher). *)
+Theorem C07_coal_ctx_done_leaves_nothing : forall has_to ls1 ls2 s1 s t e,
+  crun has_to c_init ls1 = Some s1 -> pc_of (c_thr s1) t = Some PSelect ->
+  crun has_to s1 (CCtxDone t e :: ls2) = Some s ->
+  bytes_of t (c_wire s) = [] /\ forall r, result_of (c_thr s) t = Some r -> fst r = 0 /\ snd r <> None.
+Proof. exact coal_ctx_done_lemma. Qed.
+Print Assumptions C07_coal_ctx_done_leaves_nothing.
+
+(* Wire shape for a connection that honours io.Writer (necessary: C07/Refuted.v). *)
 Theorem C07_coal_wire_shape : forall has_to ls s,
-  crun has_to c_init ls = Some s -> c_late s = false ->
+  crun has_to c_init ls = Some s -> c_broken s = false ->
   exists ts tl, c_wire s = whole (frame_of (c_thr s)) ts ++ tl /\ NoDup ts /\
     (tl = [] \/ exists t c, ~ In t ts /\ 0 < c < length (frame_of (c_thr s) t) /\ tl = tag t (firstn c (frame_of (c_thr s) t)) /\
        (cur_writing (c_fpc s) t c \/
         (c_torn s = true /\ (c_broken s = false -> exists x, result_of (c_thr s) t = Some (c, Some x))))).
 Proof. exact coal_wire_shape_lemma. Qed.
 Print Assumptions C07_coal_wire_shape.
+
+Theorem C07_coal_nothing_after_partial : forall has_to ls1 ls2 s1 s2,
+  crun has_to c_init ls1 = Some s1 -> c_torn s1 = true -> c_broken s1 = false ->
+  crun has_to s1 ls2 = Some s2 -> c_wire s2 = c_wire s1.
+Proof. exact coal_nothing_after_partial_lemma. Qed.
+Print Assumptions C07_coal_nothing_after_partial.
 
 Theorem C07_coal_nothing_after_close : forall has_to ls s s',
   crun has_to s ls = Some s' -> c_connclosed s = true -> c_connclosed s' = true /\ c_wire s' = c_wire s.
@@ -167,13 +199,13 @@ Print Assumptions C07_coal_torn_implies_closed.
 (* three concurrent requests through the direct writer, the second Write torn at byte 2 with an error, the failing
    request closes the connection, the third request never gets to write: torn, not late, contract kept, quiescent *)
 Definition ex_direct : list dlabel :=
-  [DCall [1; 2; 3]%Z; DCall [4; 5; 6; 7]%Z; DCall [8; 9]%Z; DCtxDone 2;
+  [DCall [1; 2; 3]%Z; DCall [4; 5; 6; 7]%Z; DCall [8; 9]%Z; DCtxDone 2 ECanceled;
    DAcquire 0; DStartWrite 0 None; DChunk 0 2; DChunk 0 1; DWriteRet 0 None; DAfter 0;
    DAcquire 1; DCtx 2 ECanceled; DStartWrite 1 None; DChunk 1 2; DWriteRet 1 (Some (EOther 7));
    DAfter 1; DCancel 1; DAfter 2; DClose 1].
 
 Example C07_direct_nonvacuous :
-  exists s, drun true d_init ex_direct = Some s /\ d_torn s = true /\ d_late s = false /\ d_broken s = false
+  exists s, drun true d_init ex_direct = Some s /\ d_torn s = true /\ d_failed s = Some (EOther 7) /\ d_broken s = false
             /\ d_connclosed s = true /\ result_of (d_thr s) 0 = Some (3, None) /\ result_of (d_thr s) 1 = Some (2, Some (EOther 7))
             /\ result_of (d_thr s) 2 = Some (0, Some ECanceled) /\ map snd (d_wire s) = [1; 2; 3; 4; 5]%Z.
 Proof. eexists. split; [vm_compute; reflexivity|]. repeat split. Qed.
@@ -192,7 +224,7 @@ Definition ex_coal : list clabel :=
    CAfter 1; CAfter 0; CCancel 0; CClose 0; CAfter 2].
 
 Example C07_coal_nonvacuous :
-  exists s, crun true c_init ex_coal = Some s /\ c_torn s = true /\ c_late s = false /\ c_broken s = false
+  exists s, crun true c_init ex_coal = Some s /\ c_torn s = true /\ c_failed s = Some (EOther 7) /\ c_broken s = false
             /\ c_connclosed s = true /\ result_of (c_thr s) 1 = Some (4, None) /\ result_of (c_thr s) 0 = Some (1, Some (EOther 7))
             /\ result_of (c_thr s) 2 = Some (0, Some (EOther 7)) /\ map snd (c_wire s) = [4; 5; 6; 7; 1]%Z.
 Proof. eexists. split; [vm_compute; reflexivity|]. repeat split. Qed.
